@@ -22,7 +22,8 @@ func init() {
 			"R7 a package clause on a context line cannot change the file's clause: the replacer writes the patch's package name, and the matcher admits a file only when that name equals the file's (exact decision table of the guard). " +
 			"R8 the written file is the file read: in Run the tree handed to Apply is the parse of the bytes read under this name in this iteration, the tree printed is the one Apply returned, and every sink that takes a path is given this file's path (or the Provided spelling of the same list element). R1 additionally requires every possible origin (all phi edges, all stores into locals) of a reflective assignment's destination to be a value allocated in that call. " +
 			"NOT decided: effects of astdiff / line merging on layout; go/printer; whether elided statements inside a rebuilt container are syntactically unchanged (they are the same node pointers)." +
-			" R10 the slot written is the slot matched; R11 the written file holds only the printed tree.",
+			" R10 the slot written is the slot matched; R11 the written file holds only the printed tree." +
+			" R1 also: reflect writes through a helper are checked at its call sites; R12 matching writes no shared memory.",
 		Trusted:     commonTrusted,
 		Assumptions: commonAssumptions,
 	})
